@@ -107,9 +107,13 @@ func VerifResetAll() {
     mh = os.path.join(REPO, "internal/hash/maphash/maphash.go")
     if os.path.exists(base.get(mh, mh)):
         s = read_repo("internal/hash/maphash/maphash.go")
-        m = re.search(r'func String\(seed maphash\.Seed, s string\) uint64 \{\n', s)
-        if m:
-            s = s[:m.end()] + "\tif VerifHashTable != nil {\n\t\tif h, ok := VerifHashTable[s]; ok {\n\t\t\treturn h\n\t\t}\n\t\tif VerifHashFn != nil {\n\t\t\treturn VerifHashFn(s)\n\t\t}\n\t}\n" + s[m.end():]
+        # every hashing entry point of the helper package (String, Bytes, ...): func X(<seed> maphash.Seed, <v> string|[]byte) uint64
+        pat = re.compile(r'func \w+\(\w+ (?:maphash\.)?Seed, (\w+) (string|\[\]byte)\) uint64 \{\n')
+        hooks = list(pat.finditer(s))
+        if hooks:
+            for m in reversed(hooks):
+                key = m.group(1) if m.group(2) == "string" else "string(%s)" % m.group(1)
+                s = s[:m.end()] + "\tif VerifHashTable != nil {\n\t\tif h, ok := VerifHashTable[%s]; ok {\n\t\t\treturn h\n\t\t}\n\t\tif VerifHashFn != nil {\n\t\t\treturn VerifHashFn(%s)\n\t\t}\n\t}\n" % (key, key) + s[m.end():]
             s += "\n// VerifHashTable / VerifHashFn: added by the verification overlay; the harness decides hash values.\nvar VerifHashTable map[string]uint64\nvar VerifHashFn func(string) uint64\n"
             put(os.path.join(REPO, "internal/hash/maphash/maphash.go"), "rw_maphash.go", s)
             knob = True
